@@ -35,6 +35,9 @@ def run(ctx):
     r2_tags(ctx, enc, dec, res)
     r3_packing(ctx, enc, res)
     r4_one_path(ctx, run_)
+    r5_normalisation(ctx, res)
+    from . import c12
+    c12.gz_predicate(ctx, "C07.R4")
 
 
 def _tcodes_produced(fn):
@@ -113,6 +116,11 @@ def r1_codes(ctx, enc, proc, run_):
     dflt = {a: unparse(d) for a, d in zip(names, jd.args.kw_defaults) if d is not None}
     passes = any(isinstance(c, ast.Call) and call_name(c) == "json.dumps" and any(k.arg == "ensure_ascii" and unparse(k.value) == "ensure_ascii" for k in c.keywords) for c in walk_shallow(jd))
     ctx.ob("C07.R1", "coba/json.py", "dumps", jd, "coba.json.dumps escapes non-ASCII by default and forwards the flag to json.dumps", dflt.get("ensure_ascii") == "True" and passes, stmt="json.dumps default ascii")
+    # key order: rows keep the key order the evaluator produced (and mixed-type keys cannot be sorted at all)
+    ctx.ob("C07.R1", RES, "TransactionEncode.filter", enclosing_stmt(encs[0]) if encs else enc,
+           "records keep their key order (sort_keys is not switched on by the encoder)", kws.get("sort_keys", "False") == "False", stmt="encoder key order", detail={"dumps_keywords": kws})
+    passes = any(isinstance(c, ast.Call) and call_name(c) == "json.dumps" and any(k.arg == "sort_keys" and unparse(k.value) == "sort_keys" for k in c.keywords) for c in walk_shallow(jd))
+    ctx.ob("C07.R1", "coba/json.py", "dumps", jd, "coba.json.dumps keeps key order by default (sort_keys=False) and forwards the flag to json.dumps", dflt.get("sort_keys") == "False" and passes, stmt="json.dumps default key order")
     # arms are a chain over the transaction stream: every item of the input is dispatched
     loops = [s for s in enc.body if isinstance(s, ast.For) and unparse(s.iter) == "transactions"]
     ctx.ob("C07.R1", RES, "TransactionEncode.filter", loops[0] if loops else enc, "all transactions are dispatched in order (single loop, no break)",
@@ -328,7 +336,45 @@ def r4_one_path(ctx, run_):
            bool(rets) and all(isinstance(x.value, ast.Call) and call_tail(x.value) == "read" and x.value.func.value in r for x in rets), stmt="return read-back")
 
 
+def r5_normalisation(ctx, res):
+    ctx.rule("C07.R5", "the reader applies exactly the documented normalisation to params: a top-level list value is read back as a tuple of the "
+                       "same elements (nested values untouched)")
+    helpers = {g.name: g for g in ast.walk(res) if isinstance(g, ast.FunctionDef) and g is not res}
+    norm_calls = [c.args[0] for c in ast.walk(res) if isinstance(c, ast.Call) and call_tail(c) == "update" and c.args and isinstance(c.args[0], ast.Call)
+                  and isinstance(c.args[0].func, ast.Name) and c.args[0].func.id in helpers]
+    shallow = sorted({c.func.id for c in norm_calls})
+    for nm in shallow:
+        g = helpers[nm]
+        rets = [r for r in walk_shallow(g) if isinstance(r, ast.Return)]
+        ok, shown = False, None
+        if len(rets) == 1 and isinstance(rets[0].value, ast.DictComp) and isinstance(rets[0].value.value, ast.IfExp):
+            dc = rets[0].value
+            v = dc.generators[0].target.elts[1].id if isinstance(dc.generators[0].target, ast.Tuple) and len(dc.generators[0].target.elts) == 2 else None
+            ie = dc.value
+            shown = unparse(ie)
+            inner = [x for x in ast.walk(g) if isinstance(x, ast.FunctionDef) and x is not g]
+            ok = bool(v) and unparse(ie.test) == f"isinstance({v}, list)" and unparse(ie.body) == f"tuple({v})" and unparse(ie.orelse) == v and not inner \
+                and unparse(dc.key) == dc.generators[0].target.elts[0].id
+        ctx.ob("C07.R5", RES, "TransactionResult.filter", rets[0] if rets else g, f"`{nm}` reads a list-valued param back as tuple(<the list>) -- one level, keys and every other value unchanged", ok,
+               detail={"value": shown}, stmt=f"normaliser {nm}")
+    ctx.floor("C07.R5", "param normalisers applied in TransactionResult.filter", len(shallow), 1)
+    for tag in ("E", "L", "V"):
+        arms = [x for x in ast.walk(res) if isinstance(x, ast.If) and isinstance(x.test, ast.Compare) and const_str(x.test.comparators[0]) == tag and len(x.test.ops) == 1 and isinstance(x.test.ops[0], ast.Eq)]
+        ok = bool(arms) and all(any(isinstance(c, ast.Call) and call_tail(c) == "update" and c.args and isinstance(c.args[0], ast.Call) and isinstance(c.args[0].func, ast.Name) and c.args[0].func.id in shallow
+                                    for c in ast.walk(a)) for a in arms)
+        ctx.ob("C07.R5", RES, "TransactionResult.filter", arms[0] if arms else res, f"'{tag}' params go through the top-level list->tuple normaliser", ok, stmt=f"normalise {tag}")
+
+
+def _sort_keys_default(tree):
+    from ..mutate import find_def
+    fn = find_def(tree, "dumps")
+    i = [a.arg for a in fn.args.kwonlyargs].index("sort_keys")
+    fn.args.kw_defaults[i] = ast.Constant(True)
+
+
 CONTROLS = [
+    ("params tuple-d recursively", RES, M.replace_expr("TransactionResult.filter", "tuple(v) if isinstance(v, list) else v", "tuple(map(tuple, v)) if isinstance(v, list) else v"), "C07.R5"),
+    ("sorted keys by default", "coba/json.py", _sort_keys_default, "C07.R1"),
     ("non-ascii log", RES, M.replace_expr("TransactionEncode.filter", "coba.json.dumps(minimize(x), separators=(',', ':'))", "coba.json.dumps(minimize(x), separators=(',', ':'), ensure_ascii=False)"), "C07.R1"),
     ("emit T5", PROC, M.replace_expr("ProcessTasks.filter", "'T3'", "'T5'"), "C07.R1"),
     ("bypass encoder", RES, M.replace_expr("TransactionEncode.filter", "encoder(['L', item[1], item[2]])", "coba.json.dumps(['L', item[1], item[2]])"), "C07.R1"),
